@@ -51,6 +51,155 @@ Theorem C06_tag_history_independent : forall h matches pr, In 0 pr -> forall L o
 Proof. exact verdict_after_history. Qed.
 Print Assumptions C06_tag_history_independent.
 
+(* ------------------------------------------------------------------ (D) ONE theorem for ARBITRARY
+   interleavings of add_filter (accepted / FilterExists / BadFilterAddUnsupported), use_tags /
+   enable_tags / disable_tags and optimize() on a live Blocker created empty: after any history the
+   verdict is the rule-by-rule verdict over the rules handed to add_filter (minus $badfilter rules)
+   under the tag set computed by set algebra.  Subsumes (B), (C) and C05's single optimize().
+   Invariant: C06_History_Model.SemRep (semantic: every stored rule, fused or not, stands for loaded
+   rules of its category and every loaded rule is covered in one bucket per token group).
+   Premises: id_inj, TG (C01), wfp (no AnyOf of zero patterns: true of every parsed and fused rule;
+   shown necessary at model level by C06_history_verdict_wfp_refuted). *)
+From Adb Require Import C05_Model C05_Proofs C06_History_Model C06_History_Proofs.
+
+(* ---- the history theorem ---- *)
+Theorem C06_history_verdict : forall h om pm pr, In 0 pr -> forall ops,
+  let L := loaded ops in let T := tagset ops in
+  id_inj L -> TG h (rmatch om pm) pr L -> (forall f, In f L -> wfp f = true) ->
+  blocker_check (rmatch om pm) pr (hrun h ops) = spec_verdict (rmatch om pm) L T.
+Proof. exact history_verdict. Qed.
+Print Assumptions C06_history_verdict.
+
+(* the same on the subset entry point (matched_rule / force_check_exceptions) *)
+Theorem C06_history_verdict_p : forall h om pm pr, In 0 pr -> forall mr fc ops,
+  let L := loaded ops in let T := tagset ops in
+  id_inj L -> TG h (rmatch om pm) pr L -> (forall f, In f L -> wfp f = true) ->
+  blocker_check_p (rmatch om pm) pr mr fc (hrun h ops) = spec_verdict_p (rmatch om pm) mr fc L T.
+Proof. exact history_verdict_p. Qed.
+Print Assumptions C06_history_verdict_p.
+
+(* the rule-by-rule verdict reads rules and tags as SETS ... *)
+Theorem C06_spec_verdict_set : forall matches L1 L2 T1 T2,
+  (forall x, In x L1 <-> In x L2) -> (forall t, mem_str t T1 = mem_str t T2) ->
+  spec_verdict matches L1 T1 = spec_verdict matches L2 T2.
+Proof. exact spec_verdict_set. Qed.
+Print Assumptions C06_spec_verdict_set.
+
+Theorem C06_spec_verdict_p_set : forall matches mr fc L1 L2 T1 T2,
+  (forall x, In x L1 <-> In x L2) -> (forall t, mem_str t T1 = mem_str t T2) ->
+  spec_verdict_p matches mr fc L1 T1 = spec_verdict_p matches mr fc L2 T2.
+Proof. exact spec_verdict_p_set. Qed.
+Print Assumptions C06_spec_verdict_p_set.
+
+(* ... hence two histories that loaded the same SET of rules and end with the same SET of enabled
+   tags answer alike, whatever the order, the repetitions, the number of tag switches and the
+   number and position of optimize() calls *)
+Theorem C06_history_set_determined : forall h om pm pr, In 0 pr -> forall ops1 ops2,
+  id_inj (loaded ops1) -> TG h (rmatch om pm) pr (loaded ops1) ->
+  (forall f, In f (loaded ops1) -> wfp f = true) ->
+  (forall x, In x (loaded ops1) <-> In x (loaded ops2)) ->
+  (forall t, mem_str t (tagset ops1) = mem_str t (tagset ops2)) ->
+  blocker_check (rmatch om pm) pr (hrun h ops1) = blocker_check (rmatch om pm) pr (hrun h ops2).
+Proof. exact history_set_determined. Qed.
+Print Assumptions C06_history_set_determined.
+
+Theorem C06_history_set_determined_p : forall h om pm pr, In 0 pr -> forall mr fc ops1 ops2,
+  id_inj (loaded ops1) -> TG h (rmatch om pm) pr (loaded ops1) ->
+  (forall f, In f (loaded ops1) -> wfp f = true) ->
+  (forall x, In x (loaded ops1) <-> In x (loaded ops2)) ->
+  (forall t, mem_str t (tagset ops1) = mem_str t (tagset ops2)) ->
+  blocker_check_p (rmatch om pm) pr mr fc (hrun h ops1) = blocker_check_p (rmatch om pm) pr mr fc (hrun h ops2).
+Proof. exact history_set_determined_p. Qed.
+Print Assumptions C06_history_set_determined_p.
+
+(* one at a time, in any interleaving with tag switches and optimize() = one batch *)
+Theorem C06_history_eq_batch : forall h om pm pr, In 0 pr -> forall ops,
+  id_inj (loaded ops) -> TG h (rmatch om pm) pr (loaded ops) -> (forall f, In f (loaded ops) -> wfp f = true) ->
+  blocker_check (rmatch om pm) pr (hrun h ops)
+  = blocker_check (rmatch om pm) pr (tags_with_set h (blocker_new h (loaded ops)) (tagset ops)).
+Proof. exact history_eq_batch. Qed.
+Print Assumptions C06_history_eq_batch.
+
+(* ---- the invariant: start, one step, verdict ---- *)
+Theorem C06_semrep_new : forall h om pm, SemRep h om pm (blocker_new h []) [] [].
+Proof. exact semrep_new. Qed.
+Print Assumptions C06_semrep_new.
+
+Theorem C06_hstep_semrep : forall h om pm b L T o,
+  SemRep h om pm b L T -> no_badfilter L ->
+  id_inj (rules_step L o) -> (forall g, In g (rules_step L o) -> wfp g = true) ->
+  SemRep h om pm (hstep h b o) (rules_step L o) (tags_step T o).
+Proof. exact hstep_semrep. Qed.
+Print Assumptions C06_hstep_semrep.
+
+Theorem C06_semrep_verdict : forall h om pm pr, In 0 pr -> forall b L T,
+  SemRep h om pm b L T -> TG h (rmatch om pm) pr L ->
+  blocker_check (rmatch om pm) pr b = spec_verdict (rmatch om pm) L T.
+Proof. exact semrep_verdict. Qed.
+Print Assumptions C06_semrep_verdict.
+
+(* the three list-level facts behind the step: optimize(), add_filter, filter_exists *)
+Theorem C06_semlist_optimize : forall h om pm m Lc,
+  SemList h om pm m Lc -> SemList h om pm (fl_optimize m) Lc.
+Proof. exact semlist_optimize. Qed.
+Print Assumptions C06_semlist_optimize.
+
+Theorem C06_semlist_add : forall h om pm m Lc f,
+  SemList h om pm m Lc -> wfp f = true -> id_inj (Lc ++ [f]) -> SemList h om pm (fl_add h m f) (Lc ++ [f]).
+Proof. exact semlist_add. Qed.
+Print Assumptions C06_semlist_add.
+
+(* ---- add_filter never refuses a rule that was not loaded (also after optimize()) ---- *)
+Theorem C06_history_add_exists_id : forall h ops f,
+  id_inj (loaded ops) -> (forall g, In g (loaded ops) -> wfp g = true) ->
+  snd (blocker_add h (hrun h ops) f) = AddExists ->
+  exists g, In g (loaded ops) /\ rid g = rid f.
+Proof. exact history_add_exists_id. Qed.
+Print Assumptions C06_history_add_exists_id.
+
+Theorem C06_history_add_exists_sound : forall h ops f,
+  id_inj (loaded ops ++ [f]) -> (forall g, In g (loaded ops) -> wfp g = true) ->
+  snd (blocker_add h (hrun h ops) f) = AddExists -> In f (loaded ops).
+Proof. exact history_add_exists_sound. Qed.
+Print Assumptions C06_history_add_exists_sound.
+
+(* ---- the lists whose every hit is used, and generic_hide, after any history ---- *)
+Theorem C06_history_redirect_hits : forall h matches pr, In 0 pr -> forall ops f,
+  id_inj (loaded ops) -> TG h matches pr (loaded ops) -> (forall g, In g (loaded ops) -> wfp g = true) ->
+  (In f (redirect_hits matches pr (hrun h ops)) <-> In f (spec_redirect_hits matches (loaded ops))).
+Proof. exact history_redirect_hits. Qed.
+Print Assumptions C06_history_redirect_hits.
+
+Theorem C06_history_removeparam_hits : forall h matches pr, In 0 pr -> forall ops f,
+  id_inj (loaded ops) -> TG h matches pr (loaded ops) -> (forall g, In g (loaded ops) -> wfp g = true) ->
+  (In f (removeparam_hits matches pr (hrun h ops)) <-> In f (spec_removeparam_hits matches (loaded ops))).
+Proof. exact history_removeparam_hits. Qed.
+Print Assumptions C06_history_removeparam_hits.
+
+Theorem C06_history_csp_hits : forall h matches pr, In 0 pr -> forall ops f,
+  id_inj (loaded ops) -> TG h matches pr (loaded ops) -> (forall g, In g (loaded ops) -> wfp g = true) ->
+  (In f (csp_hits matches pr (hrun h ops)) <-> In f (spec_csp_hits matches (loaded ops) (tagset ops))).
+Proof. exact history_csp_hits. Qed.
+Print Assumptions C06_history_csp_hits.
+
+Theorem C06_history_generic_hide : forall h om pm pr, In 0 pr -> forall ops,
+  id_inj (loaded ops) -> TG h (rmatch om pm) pr (loaded ops) -> (forall g, In g (loaded ops) -> wfp g = true) ->
+  generic_hide_hit (rmatch om pm) pr (hrun h ops) = spec_generic_hide (rmatch om pm) (loaded ops).
+Proof. exact history_generic_hide. Qed.
+Print Assumptions C06_history_generic_hide.
+
+(* ---- the wfp premise is necessary at model level (not reachable from the parser: no finding) ---- *)
+Theorem C06_history_verdict_wfp_refuted :
+  exists ops,
+    id_inj (loaded ops) /\ TG seahash (rmatch hx_om hx_pm) hx_probes (loaded ops) /\ In 0 hx_probes
+    /\ blocker_check (rmatch hx_om hx_pm) hx_probes (hrun seahash ops)
+       <> spec_verdict (rmatch hx_om hx_pm) (loaded ops) (tagset ops).
+Proof. exact history_verdict_wfp_refuted. Qed.
+Print Assumptions C06_history_verdict_wfp_refuted.
+
+(* ---- non-vacuity: the history replayed on the real crate (adds, optimize, re-add of the fused head
+   and of a fused member, near twin, tags, exception, second optimize, $badfilter) ---- *)
+
 (* ------------------------------------------------------------------ translator tie: the control
    structure of src/blocker.rs as extracted on this run (Generated.BlockerGen, written by
    tools/gen_fragments/c01_blocker_structure.py) denotes the hand-written model *)
